@@ -16,6 +16,7 @@ Driver for C34. Two sub-streams.
 
 `snapshots` (real `restic repair snapshots --forget`, then `check`, `check --read-data`):
   allnamed 0|1                     avail <typ> <blob> <size>            index before the command
+  liar <typ> <blob>                    handle the index lists although no listed copy is readable
   snap <id> <root>                 tree <id> ok|bad
   node <tree> <type> <hexname> <size> <sub|-|null> <meta> <content>*
   res …  tr …                      pavail / psnap <id> <root> <original|-> / ptree / pnode   (after)
@@ -190,6 +191,14 @@ def handleSnapshots (c : Case) : Verdict :=
     match psnaps.find? (·.1 == id) with
     | some p => some p
     | none => psnaps.find? (·.2.2 == id)
+  -- Precondition of everything that reads the post-state's trees back: the index does not list a
+  -- tree blob of which no copy is readable (possible only when a damaged pack was not named).
+  -- `repair snapshots` works from the index: a rewritten tree that is content-identical to such a
+  -- blob is not stored again, so the repaired snapshot points at unreadable data although, as far
+  -- as the command can know, everything is there.
+  let indexListsUnreadableTree := (c.findAll "liar").toList.any (·.getD 1 "" == "1")
+  if indexListsUnreadableTree then
+    .agree true (dmg.eraseDups ++ ["index-lists-unreadable-tree", if allNamed then "all-named" else "not-all-named"]) else
   let lostIntact := snaps.filter fun (id, root) =>
     match buildSub trees fuel root with
     | .missing => false
